@@ -1,0 +1,26 @@
+//go:build verif
+
+package watcher
+
+// VerifYield is installed by the runtime monitors under /verif (build tag verif)
+// before any goroutine of this package runs. It is called between critical
+// sections (never while a mutex of this package is held) to widen interleavings
+// and to record the order of events.
+var VerifYield func(point string)
+
+func verifYield(point string) {
+	if f := VerifYield; f != nil {
+		f(point)
+	}
+}
+
+// VerifPending returns the directories currently recorded as changed (quiescent-point inspection).
+func (p *Changes) VerifPending() []string {
+	p.mutex.Lock()
+	defer p.mutex.Unlock()
+	out := make([]string, 0, len(p.changed))
+	for d := range p.changed {
+		out = append(out, d)
+	}
+	return out
+}
